@@ -132,8 +132,11 @@ def _set_state(sim, st):
         sim.eul_grid_forcing_field[...] = st["f"]
 
 
-def _step(sim, st, dt, kind):
+def _step(sim, st, dt, kind, query_dt=False):
     _set_state(sim, st)
+    if query_dt:
+        # what every driver loop does before stepping; it may only touch scratch memory
+        sim.compute_stable_timestep()
     kw = {} if kind == "passive" else {"free_stream_velocity": np.array(st["U"], dtype=np.float64)}
     sim.time_step(dt=dt, **kw)
     return np.array(sims.primary(sim), np.float64), np.array(sim.velocity_field, np.float64)
@@ -160,6 +163,16 @@ def run_shard(sh, rec):
             ex = [0, 2, 4]
             rng.shuffle(ex)
             shape = tuple(lo + e for e in ex)
+        if c["sym"].startswith("mirror") and c["cid"] % 2 == 0:
+            # the MIRRORED axis gets a prime length (17..31 cells; doubled length not an FFT-friendly size): anything that treats the two
+            # ends of such an axis differently (padding, folding about the wrong extent) is odd under exactly this mirror
+            ax = d - 1 - "xyz".index(c["sym"][-1])
+            primes = [p_ for p_ in (17, 19, 23, 29, 31) if p_ >= lo]
+            if primes:
+                ls = list(shape)
+                ls[ax] = int(primes[int(rng.integers(len(primes)))])
+                shape = tuple(ls)
+                rec.count("pairs_mirrored_along_an_axis_of_prime_length")
         if c["cid"] % 4 == 2:
             # one long axis (> 32 cells): seams of slab-/block-wise processing lie along ONE axis and move with the relabelling
             ls = list(shape)
@@ -234,17 +247,20 @@ def run_shard(sh, rec):
             st_ = {"w": w_, "u": u_, "f": f_, "U": U}
             wb_ = t_vector(w_, g, pseudo=pseudo_w) if vec_primary else t_scalar(w_, g) * (_det(*g) if pseudo_w else 1)
             stb_ = {"w": wb_.astype(real_t), "u": t_vector(u_, g).astype(real_t), "f": t_vector(f_, g).astype(real_t) if f_ is not None else None, "U": t_const(U, g)}
-            _step(sa, st_, dt, kind)
-            _step(sb, stb_, dt, kind)
+            qd = c["cid"] % 2 == 1  # every second pair queries the recommended step before each time_step
+            if qd:
+                rec.count("pairs_with_stable_timestep_query_before_each_step")
+            _step(sa, st_, dt, kind, qd)
+            _step(sb, stb_, dt, kind, qd)
             rec.count("warmup_steps", 2)
-            wa, ua = _step(sa, st, dt, kind)
-            wb2, ub2 = _step(sb, stb, dt, kind)
+            wa, ua = _step(sa, st, dt, kind, qd)
+            wb2, ub2 = _step(sb, stb, dt, kind, qd)
             # noise floor from the real code
             sw, su = 0.0, 0.0
             for _ in range(3):
                 stp = {"w": (w * (1 + rng.uniform(-eps, eps, size=w.shape))).astype(real_t), "u": (u * (1 + rng.uniform(-eps, eps, size=u.shape))).astype(real_t),
                        "f": (f * (1 + rng.uniform(-eps, eps, size=f.shape))).astype(real_t) if f is not None else None, "U": U}
-                wp, up = _step(sa, stp, dt, kind)
+                wp, up = _step(sa, stp, dt, kind, qd)
                 sw = max(sw, util.maxabs(wp - wa))
                 su = max(su, util.maxabs(up - ua))
         except Exception as e:
